@@ -7,7 +7,10 @@ Open Scope N_scope.
 Fixpoint tbl_get {A : Type} (l : list (N * A)) (k : N) : option A :=
   match l with [] => None | (k', v) :: l' => if k' =? k then Some v else tbl_get l' k end.
 
-Definition p_bases (c : cls) : list cls := match tbl_get g_classes c with Some (_, (b, _)) => b | None => [] end.
+Definition tbl_bases (c : cls) : list cls := match tbl_get g_classes c with Some (_, (b, _)) => b | None => [] end.
+(* `for base_type in () if current_search_type is pydsdl.Any else current_search_type.__bases__` once the walk stops at Any
+   (regenerated fact g_chain_ends_at_any); before that the bases of Any (abc.ABC) were searched too *)
+Definition p_bases (c : cls) : list cls := if g_chain_ends_at_any && (c =? g_cls_Any) then [] else tbl_bases c.
 Definition p_name (c : cls) : str := match tbl_get g_classes c with Some (n, _) => n | None => [] end.
 Definition p_rank (c : cls) : nat := match tbl_get g_classes c with Some (_, (_, r)) => r | None => O end.
 Definition p_ids : list cls := map fst g_classes.
@@ -21,6 +24,10 @@ Definition forest_ok : bool :=
                     | _ => false
                     end) g_classes.
 Definition names_nodup : bool := nodup_strb (map (fun e => fst (snd e)) g_classes).
+
+(* every class below pydsdl.Any has a chain that ends at Any *)
+Definition chain_end_ok : bool :=
+  forallb (fun c => negb (isinst p_bases p_fuel c g_cls_Any) || (last (chain_n p_bases p_fuel c) c =? g_cls_Any)) p_ids.
 
 (* listing -> index, with the TEMPLATE_SUFFIX of /repo *)
 Definition p_tset (listing : list path) : tset := mk_tset g_index_top_level_only g_template_suffix listing.
@@ -101,8 +108,12 @@ Fixpoint spec_rendered_chain (pol : policy) (dirs : option (list (list path))) (
                | None => spec_rendered_chain pol dirs pkg l'
                end
   end.
-Definition p_spec_rendered (pol : policy) (dirs : option (list (list path))) (pkg : option (list path)) (c : cls) : outcome :=
+(* ... over the chain the CODE walks (p_bases) and over the chain of the PROPERTY, which ends at pydsdl.Any *)
+Definition p_spec_rendered_code (pol : policy) (dirs : option (list (list path))) (pkg : option (list path)) (c : cls) : outcome :=
   spec_rendered_chain pol dirs pkg (chain_n p_bases p_fuel c).
+Definition prop_bases (c : cls) : list cls := if c =? g_cls_Any then [] else tbl_bases c.
+Definition p_spec_rendered (pol : policy) (dirs : option (list (list path))) (pkg : option (list path)) (c : cls) : outcome :=
+  spec_rendered_chain pol dirs pkg (chain_n prop_bases p_fuel c).
 
 (* trigger predicates of the two deviations *)
 Definition flatb (l : list path) : bool :=
